@@ -24,14 +24,14 @@ def costs(tier):
     return COSTS_QUICK if tier == "quick" else COSTS_ALL
 
 
-def all_strings(L):
-    return list(itertools.product(SIGMA, repeat=L))
+def all_strings(L, sigma=SIGMA):
+    return list(itertools.product(sigma, repeat=L))
 
 
-def pair_batch(R, H, reverse=False):
+def pair_batch(R, H, reverse=False, sigma=SIGMA):
     """All pairs of stored sequences with tensor sizes R and H, as (R,N) / (H,N) tensors."""
-    refs = all_strings(R)
-    hyps = all_strings(H)
+    refs = all_strings(R, sigma)
+    hyps = all_strings(H, sigma)
     pairs = [(r, h) for r in refs for h in hyps]
     if reverse:
         pairs = pairs[::-1]
